@@ -523,6 +523,78 @@ func c04KeyAlgMuts(x *c04World, art string) []c04Mut {
 	return res
 }
 
+// c04Siblings: two servers of one deployment that trust each other's keys and do
+// NOT set host_identity in their configuration (the loader then falls back to the
+// host name).  What server A mints names A; B must not honour it, and vice versa.
+func c04Siblings(c *vfeng.Ctx) {
+	vfFixtures()
+	mk := func(ecdsaPrimary bool, host string, trusted crypto.PublicKey) *vfWorld {
+		return vfNewWorld(vfOpts{CertBackends: []string{"password"}, WebUIBackends: []string{"password"}, CliTokenLifetime: time.Hour, ECDSAPrimary: ecdsaPrimary,
+			ExtraTrustedKeys: []crypto.PublicKey{trusted},
+			Tweak: func(st *RuntimeState) {
+				st.Config.Base.HostIdentity = "" // not configured
+				st.HostIdentity = host           // what the loader derives from the host name
+			}})
+	}
+	a := mk(true, "km-a.internal.example", vfKeys.caRSA.Public())
+	b := mk(false, "km-b.internal.example", vfKeys.caEC.Public())
+	defer a.Close()
+	defer b.Close()
+	type art struct{ kind, val string }
+	mint := func(w *vfWorld) []art {
+		var res []art
+		r := w.Do(vfReq{Method: "POST", Path: "/api/v0/login", Form: url.Values{"username": {"alice"}, "password": {vfUsers["alice"]}}}.Build())
+		if ck := r.Cookie(authCookieName); ck != nil {
+			res = append(res, art{"session", ck.Value})
+		}
+		if tok, err := w.state.generateAuthJWT("alice"); err == nil {
+			res = append(res, art{"cli", tok})
+		}
+		if err := w.state.UpsertSigned("alice", 1, vclock.Now().Unix()+3600, "stored-secret"); err == nil {
+			var jws string
+			if w.state.db.QueryRow("select jws_data from expiring_signed_user_data where username='alice' and type=1").Scan(&jws) == nil {
+				res = append(res, art{"storage", jws})
+			}
+		}
+		return res
+	}
+	use := func(w *vfWorld, k art) bool {
+		switch k.kind {
+		case "session":
+			r := w.Do(vfReq{Method: "GET", Path: profilePath, Cookies: []*http.Cookie{{Name: authCookieName, Value: k.val}}}.Build())
+			return r.Code == 200
+		case "cli":
+			r := w.Do(vfReq{Method: "POST", Path: "/verifyAuthToken", Form: url.Values{"token": {k.val}}}.Build())
+			return r.Code == 200
+		default:
+			return c04Plant(&c04World{w: w}, w.state.db, k.val, false)
+		}
+	}
+	for _, pair := range []struct {
+		from, to   *vfWorld
+		fromN, toN string
+	}{{a, b, "A", "B"}, {b, a, "B", "A"}} {
+		arts := mint(pair.from)
+		if len(arts) != 3 {
+			c.Res.HarnessErr = fmt.Sprintf("sibling %s minted %d artefacts, want 3", pair.fromN, len(arts))
+			return
+		}
+		for _, k := range arts {
+			own, other := use(pair.from, k), use(pair.to, k)
+			c.Eval(2)
+			pt := map[string]interface{}{"part": "siblings", "kind": k.kind, "minted_by": pair.fromN, "presented_to": pair.toN}
+			switch {
+			case other:
+				c.Violate("C04|accepted|sibling-server|"+k.kind, fmt.Sprintf("a %s artefact minted by server %s (issuer %q) was honoured by server %s (issuer %q): it does not name this server", k.kind, pair.fromN, pair.from.issuer(), pair.toN, pair.to.issuer()), pt)
+			case !own:
+				c.Violate("C04|genuine-refused|sibling-server|"+k.kind, fmt.Sprintf("server %s refuses the %s artefact it minted itself", pair.fromN, k.kind), pt)
+			default:
+				c.Class("siblings|"+k.kind+"|own=accepted|other=refused", pt)
+			}
+		}
+	}
+}
+
 func mustJSON(v interface{}) []byte { b, _ := json.Marshal(v); return b }
 
 func c04ByteMuts(art string, f func(name, m string)) {
@@ -662,10 +734,13 @@ func init() {
 	vfRegister(&vfeng.Check{
 		ID:    "C04",
 		Level: "model_checking",
-		Rule:  "exhaustive products on the real consumers, for 4 deployments (RSA, RSA+Ed25519, ECDSA primary, RSA+extra trusted key): full producer(8) x consumer(14) matrix with artefacts produced by the server's own code paths; per artefact every single-claim removal/alteration re-signed with the real key, 20+ key/algorithm substitutions (foreign keys, embedded jwk, real kid, none, HS256/384/512 keyed with the public key in PEM/DER/SSH/modulus form, crit), and every single-byte substitution (2 values), every truncation length and every segment deletion of the compact form, delivered to the matching consumers; oracle: accept iff signature valid under a trusted key, kind matches, inside validity, issuer+audience name this server (session/CLI/storage); reject => no Set-Cookie/DB/map change",
+		Rule:  "two sibling servers without configured host_identity that trust each other's keys: session, CLI and storage artefacts minted by one are presented to the other; exhaustive products on the real consumers, for 4 deployments (RSA, RSA+Ed25519, ECDSA primary, RSA+extra trusted key): full producer(8) x consumer(14) matrix with artefacts produced by the server's own code paths; per artefact every single-claim removal/alteration re-signed with the real key, 20+ key/algorithm substitutions (foreign keys, embedded jwk, real kid, none, HS256/384/512 keyed with the public key in PEM/DER/SSH/modulus form, crit), and every single-byte substitution (2 values), every truncation length and every segment deletion of the compact form, delivered to the matching consumers; oracle: accept iff signature valid under a trusted key, kind matches, inside validity, issuer+audience name this server (session/CLI/storage); reject => no Set-Cookie/DB/map change",
 		Assumptions: []string{"an alteration is a change of the decoded header/payload/signature bytes", "claims whose change yields another legitimate token when re-signed with the real key (sub, level, data...) are not mutations", "tokens signed with the real key under another algorithm, exp==now, and audiences naming this server second are observed, not judged"},
 		Shards: func(tier string) int { return 16 },
 		Run: func(c *vfeng.Ctx) {
+			if c.Shard == c.NShards-1 {
+				c04Siblings(c)
+			}
 			i := 0
 			for _, deploy := range c04Deploys() {
 				x := c04New(deploy)
@@ -720,6 +795,17 @@ func init() {
 			}
 		},
 		Replay: func(c *vfeng.Ctx, raw json.RawMessage) (bool, string) {
+			var sp struct {
+				Part string `json:"part"`
+			}
+			if json.Unmarshal(raw, &sp) == nil && sp.Part == "siblings" {
+				n := len(c.Res.Violations)
+				c04Siblings(c)
+				if len(c.Res.Violations) > n {
+					return true, c.Res.Violations[n].Key + " :: " + c.Res.Violations[n].What
+				}
+				return false, "siblings refuse each other's artefacts"
+			}
 			var p c04Point
 			if err := json.Unmarshal(raw, &p); err != nil {
 				return false, err.Error()
